@@ -23,7 +23,7 @@ pub static DEF: PropDef = PropDef {
     level: "exploration",
     total: |t| t.pick(512, 11200),
     run,
-    rule: "record sets of 1..8 names (any printable ASCII other than the space delimiter, upper and lower case, 1..61 characters, incl. names that make the query longer than 80 bytes; one name in three is a near-duplicate of another record: same letters in another case, one character changed, a proper prefix, an extension, a trailing dot) with arbitrary addresses (0.0.0.0, 255.255.255.255, 127.0.0.1, the server's own address and addresses shared by two records over-represented) registered at the authoritative server; 1..10 clients each performing a sequence of lookups (first lookup of a name is cold, repeats must be cache hits) - one client in three runs 2..3 such sequences over disjoint names at the same time, so that several of its lookups are in flight together -, all clients concurrently, with 0..8 ms latency jitter so replies overtake each other; the server is told to serve exactly the number of cold queries. Every return value of DnsClient::get_host_by_name is compared with the record; every DNS frame seen by the H4 hook is decoded: a response must echo the identifier and name of the query sent from the port it goes to; between a successful lookup and the end of the following repeats of the same name by the same client the hook must see no new frame from that client. Non-trivial = >=2 clients, >=2 names and >=1 cache hit; distinct by scenario hash.",
+    rule: "record sets of 1..8 names (any printable ASCII other than the space delimiter, upper and lower case, 1..61 characters, incl. names that make the query longer than 80 bytes; one name in five has a meaning to resolvers elsewhere - dotted quads and other address literals, localhost, wildcards, roots, host:port -; one name in three is a near-duplicate of another record: same letters in another case, one character changed, a proper prefix, an extension, a trailing dot) with arbitrary addresses (0.0.0.0, 255.255.255.255, 127.0.0.1, the server's own address and addresses shared by two records over-represented) registered at the authoritative server; 1..10 clients each performing a sequence of lookups (first lookup of a name is cold, repeats must be cache hits) - one client in three runs 2..3 such sequences over disjoint names at the same time, so that several of its lookups are in flight together -, all clients concurrently, with 0..8 ms latency jitter so replies overtake each other; the server is told to serve exactly the number of cold queries. Every return value of DnsClient::get_host_by_name is compared with the record; every DNS frame seen by the H4 hook is decoded: a response must echo the identifier and name of the query sent from the port it goes to; between a successful lookup and the end of the following repeats of the same name by the same client the hook must see no new frame from that client. Non-trivial = >=2 clients, >=2 names and >=1 cache hit; distinct by scenario hash.",
     assumptions: &["only names that have a record are looked up (the statement is about those)", "a client's concurrent lookup sequences use disjoint names (two cold lookups of one name in flight at once would make the number of queries the server has to serve unpredictable); the no-traffic rule for repeats is only applied to clients with a single sequence"],
     may_exit_process: true,
     watchdog_s: 120,
@@ -47,7 +47,31 @@ struct LookupRes {
     lanes: usize,
 }
 
+/// Names that mean something special to resolvers elsewhere - address literals in every notation, localhost,
+/// wildcards, roots, service and port syntax. Here a name is an opaque string and the record decides.
+fn special_name(rng: &mut impl Rng) -> String {
+    match rng.gen_range(0..14) {
+        0 => format!("{}.{}.{}.{}", rng.gen::<u8>(), rng.gen::<u8>(), rng.gen::<u8>(), rng.gen::<u8>()),
+        1 => (*rng.pick(&["0.0.0.0", "127.0.0.1", "255.255.255.255", "10.0.0.1", "1.1.1.1", "4.3.2.1"])).to_string(),
+        2 => format!("{}.{}.{}", rng.gen::<u8>(), rng.gen::<u8>(), rng.gen::<u8>()),
+        3 => format!("{}.{}.{}.{}.{}", rng.gen::<u8>(), rng.gen::<u8>(), rng.gen::<u8>(), rng.gen::<u8>(), rng.gen::<u8>()),
+        4 => format!("0{}.0{}.0{}.0{}", rng.gen_range(0..8), rng.gen_range(0..8), rng.gen_range(0..8), rng.gen_range(0..8)),
+        5 => format!("{}", rng.gen::<u32>()),
+        6 => format!("0x{:08x}", rng.gen::<u32>()),
+        7 => (*rng.pick(&["localhost", "localhost.", "LOCALHOST", "localhost.localdomain", "ip6-localhost", "broadcasthost"])).to_string(),
+        8 => (*rng.pick(&["*", "*.com", "*.", ".", "..", "a..b", ".com", "com."])).to_string(),
+        9 => (*rng.pick(&["::1", "[::1]", "::ffff:10.0.0.1", "fe80::1%eth0", "[10.0.0.1]"])).to_string(),
+        10 => format!("{}.{}.{}.{}:{}", rng.gen::<u8>(), rng.gen::<u8>(), rng.gen::<u8>(), rng.gen::<u8>(), rng.gen::<u16>()),
+        11 => format!("{}.{}.{}.{}.in-addr.arpa", rng.gen::<u8>(), rng.gen::<u8>(), rng.gen::<u8>(), rng.gen::<u8>()),
+        12 => (*rng.pick(&["_dns._udp.example", "user@host", "host:53", "http://host/", "a/b", "\\host", "'quoted'", "\"q\"", "%00", "null", "-", "0"])).to_string(),
+        _ => format!("{}.{}.{}.{}.", rng.gen::<u8>(), rng.gen::<u8>(), rng.gen::<u8>(), rng.gen::<u8>()),
+    }
+}
+
 fn gen_name(rng: &mut impl Rng) -> String {
+    if rng.chance(1, 5) {
+        return special_name(rng);
+    }
     let n = *rng.pick(&[1usize, 3, 10, 24, 25, 40, 60]);
     (0..n)
         .map(|i| {
